@@ -386,6 +386,35 @@ theorem stdlib_v6_parser_sound (addr : Str) (n : Nat) (h : stdV6Addr addr = .ok 
   have hs := stdV6Int_sound addr n hi
   exact ⟨hs, spelling_lt addr n hs⟩
 
+/-- the stdlib parser model accepts exactly the RFC 4291 spellings, with exactly their value -/
+theorem stdlib_v6_parser_exact (addr : Str) (n : Nat) : stdV6Int addr = some n ↔ IP.IsV6Spelling addr n :=
+  ⟨stdV6Int_sound addr n, stdV6Int_complete addr n⟩
+
+/-- **IPv6 text forms, every spelling**: for *any* RFC 4291 spelling `addr` of `ip` – upper, lower or mixed
+case, leading zeros in groups, `::` on any run of one or more zero groups (not only the RFC 5952 choice),
+the last two groups as a dotted quad (`::ffff:a.b.c.d`, `x:x:x:x:x:x:a.b.c.d`, …) – written as `addr/len`
+or `addr<blanks>len` with any surrounding blanks and ASCII digits for `len`, the constructor builds the
+object of `(ip, len)`, provided the normalised text passes the code's 49-character guard. -/
+theorem v6_text_forms (ip len : Nat) (addr : Str) (hsp : IP.IsV6Spelling addr ip) (hlen : len ≤ 128)
+    (digits : Str) (hne : digits ≠ []) (hd : ∀ c ∈ digits, isDigit c = true) (hv : ofDigits digits = some len)
+    (hguard : (addr ++ '/' :: digits).length ≤ 49) (input : Str)
+    (hs : strip input = addr ++ '/' :: digits ∨
+      ∃ ws, ws ≠ [] ∧ (∀ c ∈ ws, isSpace c = true) ∧ strip input = addr ++ ws ++ digits) :
+    V6.fromStr input = .ok (mk6 ip len) :=
+  V6.fromStr_spelling input addr ip len digits hsp hlen hne hd hv hguard hs
+
+/-- the same without a mask: prefix length 128 -/
+theorem v6_text_forms_plain (ip : Nat) (addr : Str) (hsp : IP.IsV6Spelling addr ip) (hguard : addr.length ≤ 49)
+    (input : Str) (hs : strip input = addr) : V6.fromStr input = .ok (mk6 ip 128) :=
+  V6.fromStr_spelling_plain input addr ip hsp hguard hs
+
+-- non-vacuity: spellings outside the canonical ones (upper case + embedded quad, `::` on a single zero
+-- group with leading zeros kept, full form with dotted quad) are spellings of the expected values
+example : IP.IsV6Spelling "::FFFF:1.2.3.4".toList 0xFFFF01020304 := stdV6Int_sound _ _ (by decide +kernel)
+example : IP.IsV6Spelling "1:02:003:0004::6:7:8".toList 0x00010002000300040000000600070008 :=
+  stdV6Int_sound _ _ (by rfl)
+example : IP.IsV6Spelling "0:0:0:0:0:ffff:255.255.255.255".toList 0xFFFFFFFFFFFF := stdV6Int_sound _ _ (by decide +kernel)
+
 /-- **IPv6 rejects** (no silent truncation or coercion; this is the statement F16 violated before the
 regex was anchored): whenever the text constructor returns an object, then after `strip()` and the
 blank-to-slash rewrite the *whole* text (at most 49 characters) is `addr` (then `len = 128`) or
